@@ -1212,8 +1212,12 @@ def array_to_groups_and_locations(
                 axis=unique_axis)
     except TypeError:
         # group by string representations, necessary when types are not comparable
+        try:
+            array_str = array.astype(str)
+        except ValueError: # tuples and other sequences cannot be cast
+            array_str = np.array([str(v) for v in array.flat], dtype=str).reshape(array.shape)
         _, group_index, locations = np.unique(
-                array.astype(str),
+                array_str,
                 return_index=True,
                 return_inverse=True,
                 axis=unique_axis)
